@@ -42,10 +42,12 @@ def run(chk):
                 n_calls += 1
                 arg = canon(sx._args[1][0])
                 lossy = [m for m in (".dropna(", ".fillna(", ".ffill(", ".bfill(", ".interpolate(", ".notna()", ".notnull()", "isna()", "isnull()") if m in arg]
-                r4.require(not lossy, f"{mvf.key}|usage-gaps-lost-before-coverage:{lossy[0].strip(chr(46)+chr(40)+chr(41)) if lossy else chr(45)}", mvf.where(),
-                           f"_compute_meter_value_df hands `{arg[:120]}` to clean_billing_daily_data: missing readings are removed ({lossy[0].strip('.(')}) before the coverage of each day is counted, so "
-                           "a sub-daily meter's day with 25 % of its readings comes back as the plain sum of those readings (not missing) and a day with 75 % is not divided by its coverage",
-                           sample={"argument": arg[:120]})
+                for op_ in lossy or [None]:
+                    nm_ = op_.strip(".()") if op_ else "-"
+                    r4.require(op_ is None, f"{mvf.key}|usage-gaps-lost-before-coverage:{nm_}", mvf.where(),
+                               f"_compute_meter_value_df hands `{arg[:120]}` to clean_billing_daily_data: missing readings are removed or filled ({nm_}) before the coverage of each day is counted, so "
+                               "a sub-daily meter's day with 25 % of its readings comes back as the plain sum of those readings (not missing) and a day with 75 % is not divided by its coverage",
+                               sample={"argument": arg[:120]})
     if n_calls < 1:
         raise AnalysisError(f"{mvf.key}: no call of clean_billing_daily_data found in the interpreted result (anchor changed)")
 
